@@ -146,6 +146,37 @@ Theorem C17_blob_push_refines_spec :
 Proof. exact blob_push_tok_refines_spec. Qed.
 Print Assumptions C17_blob_push_refines_spec.
 
+(* --- the same refinements under cancellation ----------------------------------------------- *)
+
+(* for EVERY context (never ending, ending at any instant, over before the call): the transport
+   computes spec_send_c, whose attempts are cut short by the context and whose pauses end the
+   call with the context's error exactly as the specification says *)
+Theorem C17_round_trip_refines_spec_c :
+  forall p cn bd sc t,
+    wf_body bd -> replayable bd ->
+    let out := round_trip p cn bd (init_state bd) sc t in
+    (o_res out, o_time out, attempts (o_trace out)) = spec_send_c p cn bd sc t.
+Proof. exact round_trip_refines_spec_c. Qed.
+Print Assumptions C17_round_trip_refines_spec_c.
+
+Theorem C17_auth_refines_spec_c :
+  forall p cn bd sc tb tsc t0,
+    wf_body bd -> replayable bd -> wf_body tb -> replayable tb ->
+    let a := auth_do_tok_at p cn bd sc tb tsc t0 in
+    (ak_res a, ak_time a, attempts (ak_first a), attempts (ak_token a), attempts (ak_second a))
+    = spec_auth_at_c p cn bd sc tb tsc t0.
+Proof. exact auth_do_tok_at_refines_spec_c. Qed.
+Print Assumptions C17_auth_refines_spec_c.
+
+Theorem C17_blob_push_refines_spec_c :
+  forall authc p cn bd sc tb tsc,
+    wf_body bd -> replayable bd -> wf_body tb -> replayable tb ->
+    let u := blob_push_tok authc p cn bd sc tb tsc in
+    (uk_res u, uk_time u, show_authk (uk_post u), option_map show_authk (uk_put u))
+    = spec_push_c authc p cn bd sc tb tsc.
+Proof. exact blob_push_tok_refines_spec_c. Qed.
+Print Assumptions C17_blob_push_refines_spec_c.
+
 (* --- bodies ---------------------------------------------------------------- *)
 
 (* on attempt i the registry receives exactly what it reads of the complete original
@@ -578,6 +609,12 @@ Proof. vm_compute. repeat split; reflexivity. Qed.
 Example ex_spec :
   spec_send ex_policy ex_body ex_script 0
   = (RResp 200 0%N, 1134, [(0, b "manifest"); (110, b "man"); (1130, b "manifest")]).
+Proof. vm_compute. reflexivity. Qed.
+
+(* the specification under a context ending at 151: cut in the second pause *)
+Example ex_spec_cancel :
+  spec_send_c ex_policy (Some (151, false)) ex_body ex_script 0
+  = (RCtx, 151, [(0, b "manifest"); (110, b "man")]).
 Proof. vm_compute. reflexivity. Qed.
 
 (* cancelled in the second pause *)
